@@ -26,6 +26,12 @@ def main():
     ap.add_argument("--replay", default=None)
     a = ap.parse_args()
     seed = int(os.environ.get("VERIF_SEED", "0") or 0)
+    # runs against /repo all regenerate the same Generated/*.lean and may overlap (shared lock); a development run
+    # against another tree (VERIF_REPO) rewrites those files with that tree's content and therefore runs alone
+    import fcntl
+    os.makedirs(os.path.join(core.LEAN_DIR, ".lake"), exist_ok=True)
+    _tree_lock = open(os.path.join(core.LEAN_DIR, ".lake", "tree.lock"), "w")
+    fcntl.flock(_tree_lock, fcntl.LOCK_SH if core.REPO == "/repo" else fcntl.LOCK_EX)
 
     def _leave_tree_clean():
         # a development run against another tree (VERIF_REPO) must not leave that tree's generated files in /verif
